@@ -90,6 +90,107 @@ def spellSubnet4 (a : Nat) (sh : Shape4) (w : Option Nat) (ps : PortSpec) : Str 
 def denotes4 (a : Nat) (w : Option Nat) (ps : PortSpec) : Subnet :=
   ⟨.inet, dotted a, w.getD 32, ps.first, ps.last⟩
 
+/-! ## IPv6 literals: every textual form (RFC 4291 §2.2 forms 1–3) -/
+
+/-- one hexadecimal digit as written: its value and whether it is written in upper case -/
+structure HexDigit where
+  d     : Nat
+  upper : Bool
+deriving DecidableEq, Repr
+
+def HexDigit.char (h : HexDigit) : Char := if h.upper then digitCharU h.d else digitChar h.d
+
+/-- one group as written: 1–4 hex digits, leading zeros and mixed case allowed -/
+abbrev Hextet := List HexDigit
+
+def Hextet.Valid (g : Hextet) : Prop := 1 ≤ g.length ∧ g.length ≤ 4 ∧ ∀ h ∈ g, h.d < 16
+
+def hextetText (g : Hextet) : Str := g.map HexDigit.char
+
+def hextetVal (g : Hextet) : Nat := g.foldl (fun acc h => acc * 16 + h.d) 0
+
+/-- groups, each followed by a colon -/
+def sepG : List Hextet → Str
+  | [] => []
+  | g :: r => hextetText g ++ ':' :: sepG r
+
+/-- what follows the last colon -/
+inductive End6
+  | nothing                 -- the text ends in `::`
+  | group (g : Hextet)      -- a last group
+  | quad (v : Nat)          -- the last 32 bits as a dotted quad (embedded IPv4)
+deriving Repr
+
+def End6.text : End6 → Str
+  | .nothing => []
+  | .group g => hextetText g
+  | .quad v => dotted v
+
+def End6.words : End6 → List Nat
+  | .nothing => []
+  | .group g => [hextetVal g]
+  | .quad v => [v / 65536, v % 65536]
+
+def End6.Valid : End6 → Prop
+  | .nothing => True
+  | .group g => g.Valid
+  | .quad v => v < 2 ^ 32
+
+/-- a textual IPv6 address: all groups written out, or one `::` standing for one or more zero groups -/
+inductive Spell6
+  | full (gs : List Hextet) (e : End6)
+  | compressed (left right : List Hextet) (e : End6)
+deriving Repr
+
+def Spell6.text : Spell6 → Str
+  | .full gs e => sepG gs ++ e.text
+  | .compressed l r e => (if l.isEmpty then [':'] else []) ++ (sepG l ++ ':' :: (sepG r ++ e.text))
+
+/-- number of 16-bit words written explicitly -/
+def Spell6.explicit : Spell6 → Nat
+  | .full gs e => gs.length + e.words.length
+  | .compressed l r e => l.length + r.length + e.words.length
+
+def End6.isNothing : End6 → Bool
+  | .nothing => true
+  | _ => false
+
+/-- full form: exactly eight words, and the text does not end in a colon;
+compressed form: at most seven explicit words (the `::` stands for at least one), and a text
+that ends in `::` has nothing written to the right of it -/
+def Spell6.Valid : Spell6 → Prop
+  | .full gs e => (∀ g ∈ gs, g.Valid) ∧ e.Valid ∧ e.isNothing = false ∧ gs.length + e.words.length = 8
+  | .compressed l r e =>
+    (∀ g ∈ l, g.Valid) ∧ (∀ g ∈ r, g.Valid) ∧ e.Valid ∧ l.length + r.length + e.words.length ≤ 7 ∧
+    (e.isNothing = true → r = [])
+
+/-- the address a spelling denotes: its words, with the `::` expanded to zero words -/
+def Spell6.denotes : Spell6 → Nat
+  | .full gs e => wordsVal (gs.map hextetVal ++ e.words)
+  | .compressed l r e =>
+    wordsVal (l.map hextetVal ++
+      (List.replicate (8 - (l.length + r.length + e.words.length)) 0 ++ (r.map hextetVal ++ e.words)))
+
+/-- a documented IPv6 subnet argument: bare with optional width, or bracketed with optional
+width and optional port / port range -/
+inductive Form6
+  | bare
+  | bracketed (ps : PortSpec)
+deriving Repr
+
+def spellSubnet6 (sp : Spell6) (w : Option Nat) : Form6 → Str
+  | .bare => sp.text ++ spellWidth w
+  | .bracketed ps => '[' :: (sp.text ++ (spellWidth w ++ ']' :: spellPorts ps))
+
+def Form6.ports : Form6 → PortSpec
+  | .bare => .none
+  | .bracketed ps => ps
+
+/-- what it denotes; the canonical text of an IPv6 address is glibc's `inet_ntop` form -/
+def denotes6 (sp : Spell6) (w : Option Nat) (f : Form6) : Subnet :=
+  ⟨.inet6, ntop6 sp.denotes, w.getD 128, f.ports.first, f.ports.last⟩
+
+
 /-- an environment in which nothing resolves (numeric ASCII hosts never consult it) -/
 def envNone : Env := ⟨fun _ => none, fun _ => none⟩
 
